@@ -701,6 +701,10 @@ func parseFixtures() []pSpec {
 		{name: "sugar-tokens", tokens: []string{"A", "B", "C"}, maxLen: 6, rules: []pRule{
 			{"s", []pProd{P(sugar("opt", A), sugar("star", B), sugar("plus", C))}},
 		}},
+		{name: "optional-after-same-type", tokens: []string{"A", "B", "C"}, maxLen: 6, rules: []pRule{
+			{"s", []pProd{P(A, sugar("opt", A), B), P(rl("x"), sugar("opt", rl("x")), C)}},
+			{"x", []pProd{P(B, B)}},
+		}},
 		{name: "sugar-rules", tokens: []string{"A", "B", "C", "D"}, maxLen: 5, rules: []pRule{
 			{"s", []pProd{P(sugar("opt", rl("x")), sugar("star", rl("y")), tk("D"))}},
 			{"x", []pProd{P(A)}},
